@@ -227,9 +227,55 @@ def enrich(doc, r, opts):
   return doc
 
 
+SPLITS = [("--", ">"), ("-", "->"), ("x--", "> y"), ("-", "-", ">"), ("&", "amp;"), ("&", "lt;"), ("&l", "t;"), ("<", "b>"), ("<", "/b>"), ("<b", ">"),
+          ("<00:00", ":01.000>"), ("\n", "\n"), ("x\n", "\ny"), (" ", " "), ("x ", " y"), ("&#6", "5;"), ("x\r", "\ny"), ("<", "!--"), ("{", "b}"), ("--", "&gt;")]
+
+
+def directed_doc(index):
+  """markup-significant character sequences split over ADJACENT text nodes (no tag or line break between them in the output when
+  the spans are unstyled): `--` + `>`, `&` + `amp;`, `<` + `b>`, LF + LF ...; three layouts per split"""
+  parts = SPLITS[index % len(SPLITS)]
+  layout = (index // len(SPLITS)) % 3
+  doc = m.ContentDocument()
+  reg = m.Region("r1", doc)
+  doc.put_region(reg)
+  body = m.Body(doc)
+  doc.set_body(body)
+  div = m.Div(doc)
+  body.push_child(div)
+  p = m.P(doc)
+  p.set_region(reg)
+  p.set_begin(Fraction(0))
+  p.set_end(Fraction(2))
+  if layout == 1:
+    p.set_space(m.WhiteSpaceHandling.PRESERVE)
+  div.push_child(p)
+  lead = m.Span(doc)
+  lead.push_child(m.Text(doc, "left "))
+  p.push_child(lead)
+  for k, t in enumerate(parts):
+    sp_ = m.Span(doc)
+    if layout == 2 and k == 1:
+      inner = m.Span(doc)        # the second part one level deeper
+      inner.push_child(m.Text(doc, t))
+      sp_.push_child(inner)
+    else:
+      sp_.push_child(m.Text(doc, t))
+    p.push_child(sp_)
+  tail = m.Span(doc)
+  tail.push_child(m.Text(doc, " right"))
+  p.push_child(tail)
+  return doc
+
+
+N_DIRECTED = 3 * len(SPLITS)
+
+
 def gen_doc(info):
   """info = (seed, chunk, index, scope): reproducible generation of one document"""
   seed, chunk, index, scope = info
+  if scope == "directed":
+    return directed_doc(index)
   dscope, opts = SCOPES[scope]
   r = rng(seed, f"cues/{scope}/{chunk}")
   g = docgen.Gen(r, dscope)
@@ -282,6 +328,8 @@ class Ref:
     self._isd = {}
     self.has_ruby = doc.get_body() is not None and any(isinstance(e, m.Ruby) for e in doc.get_body().dfs_iterator())
     self.has_tie = any(C.is_tie(c) for c in self.cts)
+    self.has_unicode_space = doc.get_body() is not None and any(
+      isinstance(e, m.Text) and any(ch.isspace() and ch not in C.BLANK_CHARS for ch in e.get_text()) for e in doc.get_body().dfs_iterator())
 
   def intervals(self, ruby):
     if ruby not in self._ivs:
@@ -295,6 +343,12 @@ class Ref:
       for rounding in roundings:
         for bl in ("keep", "drop"):
           yield ruby, rounding, bl
+    if self.has_unicode_space:
+      # second reading of `non-blank`: a cue / a line that holds nothing but Unicode space characters is blank
+      for ruby in rubies:
+        for rounding in roundings:
+          yield ruby, rounding, "drop-wide"
+          yield ruby, rounding, "keep-wide"
 
   def has_short_gap(self):
     return any(C.to_ms(b) <= C.to_ms(a) for a, b in zip(self.cts, self.cts[1:]))
@@ -431,7 +485,7 @@ def check_c06_output(rec, ref, info, cfg_name, cues, problems=(), text=""):
     ivs = ref.intervals(ruby)
     if ivs is None:
       return None
-    exp = C.expected_cues(ref.doc, config, ruby, rounding, bl, intervals=ivs)
+    exp = C.expected_cues(ref.doc, config, ruby, rounding, bl.split("-")[0], intervals=ivs, wide_blank=bl.endswith("-wide"))
     if primary is None:
       primary = exp
     d = C.timeline_diff(exp, actual)
@@ -892,7 +946,13 @@ def units_job(job):
   logging.disable(logging.CRITICAL)
   prop, quick, seed, part = job
   rec = Recorder(prop, "", {})
-  if part == "helpers":
+  if part == "directed":
+    for index in range(N_DIRECTED):
+      joined = "".join(SPLITS[index % len(SPLITS)])
+      # SubRip has no escape mechanism: text that spells a tag IS a tag there, so those splits go to the WebVTT writer only
+      names = list(VTT_CONFIGS) if joined in ("<b>", "</b>", "{b}") else list(ALL_CONFIGS)
+      check_doc(rec, prop, directed_doc(index), (seed, 0, index, "directed"), names)
+  elif part == "helpers":
     check_text_helpers(rec, 5 if quick else 7)
   elif part == "default-end":
     check_default_end(rec, quick, seed)
@@ -916,7 +976,7 @@ def main(prop, per_scope):
                   else "normalize_eol / blank test over all strings up to length 5 (quick) / 7 over {a, space, LF, CR}; to_string over the same grid of "
                        "begin times x 10 interval lengths around 0, 0.5 and 1 ms"})
   jobs = [(prop, args.seed, ch, per[scope], scope, quick) for scope in per for ch in range(CHUNKS)]
-  units = [(prop, quick, args.seed, part) for part in (("default-end",) if prop == "C06" else ("helpers", "to-string"))]
+  units = [(prop, quick, args.seed, part) for part in (("default-end", "directed") if prop == "C06" else ("helpers", "to-string", "directed"))]
   parts = parallel(job, jobs + units)
   skipped = 0
   for part in parts:
